@@ -268,3 +268,70 @@ func pickCookieClass(r *gen.Rand) string {
 	}
 	return ckGarbage
 }
+
+// decodeFlash reads a flash cookie value back (the subset of msgp fiber writes). ok is false if the
+// bytes are not such an encoding.
+func decodeFlash(b []byte) (ms []fmsg, ok bool) {
+	defer func() {
+		if recover() != nil {
+			ms, ok = nil, false
+		}
+	}()
+	i := 0
+	rdStr := func() string {
+		c := b[i]
+		i++
+		n := 0
+		switch {
+		case c >= 0xa0 && c <= 0xbf:
+			n = int(c & 0x1f)
+		case c == 0xd9:
+			n = int(b[i])
+			i++
+		case c == 0xda:
+			n = int(b[i])<<8 | int(b[i+1])
+			i += 2
+		default:
+			panic("not a string")
+		}
+		s := string(b[i : i+n])
+		i += n
+		return s
+	}
+	if len(b) == 0 || b[0] < 0x90 || b[0] > 0x9f {
+		return nil, false
+	}
+	n := int(b[0] & 0x0f)
+	i = 1
+	for k := 0; k < n; k++ {
+		if b[i] < 0x80 || b[i] > 0x8f {
+			return nil, false
+		}
+		fields := int(b[i] & 0x0f)
+		i++
+		var m fmsg
+		for f := 0; f < fields; f++ {
+			switch rdStr() {
+			case "key":
+				m.Key = rdStr()
+			case "value":
+				m.Value = rdStr()
+			case "level":
+				if b[i] == 0xcc {
+					m.Level = b[i+1]
+					i += 2
+				} else {
+					m.Level = b[i]
+					i++
+				}
+			case "isOldInput":
+				m.Old = b[i] == 0xc3
+				i++
+			default:
+				return nil, false
+			}
+		}
+		ms = append(ms, m)
+	}
+	return ms, true
+}
